@@ -1388,3 +1388,69 @@ def demography_contract(g):
          "as_dict() = {population_size: stored/2, time_breaks: stored[1:]} and forall x: fl(2*fl(fl(2x)/2)) == fl(2x) unless "
          "fl(2x) overflows (z3, bit-precise binary64), so the rebuilt object stores identical arrays",
          None if (shape_ok and r == z3.unsat) else f"shape_ok={shape_ok}, lemma={r}")
+
+
+# ---------------------------------------------------------------------------------------------
+def iterate_composition(g):
+    """C21: one EP iteration = block sweep, edge sweep, [root prior], then the scale is absorbed (scale == 1), each
+    step called on the object's own state, so the per-kernel invariant posterior == scale * S composes to
+    posterior == S == sum of messages at the end of every iteration."""
+    name = "variational.ExpectationPropagation.iterate"
+    paths = g.trace(name)
+    if paths is None:
+        return
+
+    def comp(p):
+        if p.status != "return":
+            return None
+        seq = [ev for ev in p.events if ev["kind"] == "call" and ev["func"] in
+               ("self.propagate_likelihood", "self.propagate_prior", "_rescale_factors", "self._check_valid_state")]
+        names = [ev["func"] for ev in seq]
+        reg = any(c == ("regularise", True) for c in p.conds)
+        want = ["self.propagate_likelihood", "self.propagate_likelihood"] + (["self.propagate_prior"] if reg else []) + ["_rescale_factors"]
+        if [n for n in names if n != "self._check_valid_state"] != want:
+            return f"call sequence is {names}, contract wants {want}"
+        blk = [text_of(a) for a in seq[0]["args"]]
+        edg = [text_of(a) for a in seq[1]["args"]]
+        want_blk = ["self.block_order", "self.block_nodes[ROOTWARD]", "self.block_nodes[LEAFWARD]", "self.block_likelihoods",
+                    "self.node_constraints", "self.node_posterior", "self.factors", "self.block_logconst", "max_shape", "min_step",
+                    "USE_BLOCK_LIKELIHOOD"]
+        want_edg = ["self.edge_order", "self.edge_parents", "self.edge_children", "self.edge_likelihoods",
+                    "self.node_constraints", "self.node_posterior", "self.factors", "self.edge_logconst", "max_shape", "min_step",
+                    "USE_EDGE_LIKELIHOOD"]
+        if blk != want_blk:
+            return f"block sweep arguments are {blk}"
+        if edg != want_edg:
+            return f"edge sweep arguments are {edg}"
+        last = [ev for ev in seq if ev["func"] == "_rescale_factors"][-1]
+        if [text_of(a) for a in last["args"]] != ["self.factors"]:
+            return "final _rescale_factors is not applied to self.factors"
+        if reg:
+            pr = [ev for ev in seq if ev["func"] == "self.propagate_prior"][0]
+            a = [text_of(x) for x in pr["args"]]
+            if a[:4] != ["self.unconstrained_roots", "self.node_posterior", "self.factors", "max_shape"]:
+                return f"propagate_prior arguments are {a}"
+        # nothing else touches the posterior / factors
+        for ev in p.events:
+            if ev["kind"] in ("store", "store-item") and ("node_posterior" in ev.get("target", "") or "factors" in ev.get("target", "")):
+                return f"direct write to {ev['target']}"
+        return None
+    g.forall_paths(f"{name}:block-sweep-edge-sweep-prior-then-absorb-scale", paths, comp,
+                   "iterate() = propagate_likelihood(blocks) ; propagate_likelihood(edges) ; [propagate_prior(roots)] ; "
+                   "_rescale_factors(self.factors), all on self.node_posterior / self.factors / self.node_constraints")
+    consts = extract.module_constants("variational")
+    ok = consts.get("USE_EDGE_LIKELIHOOD") is False and consts.get("USE_BLOCK_LIKELIHOOD") is True and \
+        consts.get("ROOTWARD") == 0 and consts.get("LEAFWARD") == 1
+    g.ob("variational:flags-select-the-block-and-edge-factor-arrays", ok,
+         "USE_BLOCK_LIKELIHOOD is True, USE_EDGE_LIKELIHOOD is False (so the two sweeps are the two verified variants), "
+         "ROOTWARD = 0, LEAFWARD = 1", None if ok else str({k: consts.get(k) for k in ("USE_EDGE_LIKELIHOOD", "USE_BLOCK_LIKELIHOOD", "ROOTWARD", "LEAFWARD")}))
+    # fixed nodes: node_moments ignores the posterior of fixed nodes
+    fn = extract.get_function("variational.ExpectationPropagation.node_moments")
+    src = ast.unparse(fn.node)
+    ok = "nodes_mn = np.ascontiguousarray(self.node_constraints[:, 0])" in src and \
+        "free = self.node_constraints[:, 0] != self.node_constraints[:, 1]" in src and \
+        "nodes_mn[free] = (alpha[free] + 1) / beta[free]" in src and "nodes_va = np.zeros(nodes_mn.size)" in src
+    g.ctx.functions.append({**fn.describe(), "mode": "G3 structural"})
+    g.ob("variational.ExpectationPropagation.node_moments:fixed-nodes-report-their-time-with-zero-variance", ok,
+         "mean := lower constraint, variance := 0 for fixed nodes; (alpha+1)/beta and mean/beta for free nodes",
+         None if ok else "node_moments changed shape")
